@@ -495,3 +495,127 @@ Example uper_setof_bool_witness :
   uper false (TSetOf 68 (SCon 0 None false) (TBool 4)) (VList [VBool true; VBool false; VBool true]) =
   uper false (TSetOf 68 (SCon 0 None false) (TBool 4)) (VList [VBool false; VBool true; VBool true]).
 Proof. vm_compute. reflexivity. Qed.
+
+(* ---------------- members of one fixed width: the padded key is injective ---------------- *)
+
+Lemma bits_val_bound l : 0 <= bits_val l < 2 ^ zlen l.
+Proof.
+  induction l as [|b tl IH]; cbn [bits_val]; [cbn; lia|].
+  rewrite zlen_cons, Z.pow_add_r by (pose proof (zlen_nonneg tl); lia).
+  destruct b; lia.
+Qed.
+
+Lemma bits_val_inj l1 : forall l2, length l1 = length l2 -> bits_val l1 = bits_val l2 -> l1 = l2.
+Proof.
+  induction l1 as [|a t1 IH]; intros [|b t2] HL HV; try discriminate; auto.
+  cbn [length] in HL. assert (HL' : length t1 = length t2) by lia.
+  cbn [bits_val] in HV. unfold zlen in HV. rewrite HL' in HV. fold (zlen t2) in HV.
+  pose proof (bits_val_bound t1) as B1. pose proof (bits_val_bound t2) as B2.
+  unfold zlen in B1. rewrite HL' in B1. fold (zlen t2) in B1.
+  destruct a, b; try lia; f_equal; apply IH; auto; lia.
+Qed.
+
+Lemma pack_bits_cons f x t :
+  pack_bits (S f) (x :: t) =
+  bits_val (firstn 8 (x :: t)) * 2 ^ (8 - zlen (firstn 8 (x :: t))) :: pack_bits f (skipn 8 (x :: t)).
+Proof. reflexivity. Qed.
+
+Lemma pack_bits_inj f : forall b1 b2, length b1 = length b2 -> (length b1 < f)%nat ->
+  pack_bits f b1 = pack_bits f b2 -> b1 = b2.
+Proof.
+  induction f as [|f IH]; intros b1 b2 HL Hf HP; [lia|].
+  destruct b1 as [|x t1], b2 as [|y t2]; try discriminate; auto.
+  rewrite !pack_bits_cons in HP.
+  remember (firstn 8 (x :: t1)) as h1 eqn:Eh1. remember (firstn 8 (y :: t2)) as h2 eqn:Eh2.
+  remember (skipn 8 (x :: t1)) as r1 eqn:Er1. remember (skipn 8 (y :: t2)) as r2 eqn:Er2.
+  assert (Hh : length h1 = length h2) by (subst h1 h2; rewrite !firstn_length; lia).
+  assert (Hr : length r1 = length r2) by (subst r1 r2; rewrite !skipn_length; lia).
+  assert (Hrf : (length r1 < f)%nat) by (subst r1; rewrite skipn_length; cbn [length] in *; lia).
+  injection HP as HV HR.
+  assert (Hz : zlen h1 = zlen h2) by (unfold zlen; lia).
+  rewrite Hz in HV.
+  assert (H8 : zlen h2 <= 8) by (unfold zlen; subst h2; rewrite firstn_length; lia).
+  assert (Hp : 0 < 2 ^ (8 - zlen h2)) by (apply Z.pow_pos_nonneg; lia).
+  set (P := 2 ^ (8 - zlen h2)) in *.
+  assert (HV' : bits_val h1 = bits_val h2) by (apply (Z.mul_reg_r _ _ P); [lia|exact HV]).
+  rewrite <- (firstn_skipn 8 (x :: t1)), <- (firstn_skipn 8 (y :: t2)).
+  rewrite <- Eh1, <- Eh2, <- Er1, <- Er2. f_equal.
+  - apply bits_val_inj; assumption.
+  - apply IH; assumption.
+Qed.
+
+Lemma pad_key_inj_len b1 b2 : length b1 = length b2 -> pad_key b1 = pad_key b2 -> b1 = b2.
+Proof.
+  intros HL HK. unfold pad_key, bits_to_bytes in HK. rewrite <- HL in HK.
+  eapply pack_bits_inj; eauto.
+Qed.
+
+Lemma nbits_length w n : length (nbits w n) = w.
+Proof. induction w; cbn; auto. Qed.
+
+Lemma fixed_bits_length std t : forall n v b,
+  fixed_bits t = Some n -> uper std t v = Some b -> length b = n.
+Proof.
+  induction t using ty_ind'; intros n v b HF HU; try discriminate.
+  - destruct v; try discriminate. cbn in *. inversion HF; inversion HU; subst. reflexivity.
+  - destruct v; try discriminate. cbn in *. inversion HF; inversion HU; subst. reflexivity.
+  - destruct c as [[l|] [h|] [|]]; try discriminate. cbn in HF. inversion HF; subst.
+    destruct v; try discriminate. cbn in HU.
+    destruct ((l <=? z) && (z <=? h)); [|discriminate].
+    inversion HU; subst. cbn [app]. apply nbits_length.
+  - (* SEQUENCE *)
+    destruct v; try discriminate. cbn [uper] in HU.
+    destruct (enc_members (uper std) ms vs) as [body|] eqn:EM; [|discriminate].
+    inversion HU; subst. clear HU.
+    revert n vs body HF EM.
+    induction H as [|m ms' Hm HA IH]; intros n vs body HF EM.
+    + destruct vs; cbn in EM; [|discriminate]. inversion EM; subst. cbn in HF. inversion HF. reflexivity.
+    + destruct vs as [|v vs']; [discriminate|].
+      cbn in EM.
+      destruct (uper std m v) as [a|] eqn:Ea; [|discriminate].
+      destruct (enc_members (uper std) ms' vs') as [b'|] eqn:Eb; [|discriminate].
+      inversion EM; subst. clear EM.
+      cbn [fixed_bits] in HF. fold fixed_bits in HF.
+      destruct (is_opt m) eqn:Eo; [discriminate|].
+      destruct (fixed_bits m) as [na|] eqn:Ena; [|discriminate].
+      match type of HF with match ?g with _ => _ end = _ => destruct g as [nb|] eqn:Enb; [|discriminate] end.
+      inversion HF; subst. clear HF.
+      cbn [presence_bits]. rewrite Eo. cbn [app].
+      specialize (IH nb vs' b' Enb Eb).
+      rewrite app_length in IH |- *. rewrite app_length.
+      rewrite (Hm na v a eq_refl Ea). lia.
+  - (* tag *) rewrite uper_tag in HU. cbn in HF. eapply IHt; eauto.
+Qed.
+
+Lemma fixed_bits_keys_ok std t : forall n, fixed_bits t = Some n -> setof_keys_ok std t.
+Proof.
+  induction t using ty_ind'; intros n HF; try discriminate; try exact I.
+  - cbn [setof_keys_ok]. revert n HF.
+    induction H as [|m ms' Hm HA IH]; intros n HF; [exact I|].
+    cbn [fixed_bits] in HF. fold fixed_bits in HF.
+    destruct (is_opt m); [discriminate|].
+    destruct (fixed_bits m) as [na|] eqn:Ena; [|discriminate].
+    match type of HF with match ?g with _ => _ end = _ => destruct g as [nb|] eqn:Enb; [|discriminate] end.
+    split; [eapply Hm; eauto|eapply IH; eauto].
+  - cbn in *. eapply IHt; eauto.
+Qed.
+
+Theorem fixed_bits_key_injective std e n : fixed_bits e = Some n -> key_injective std e.
+Proof.
+  intros HF v1 v2 b1 b2 H1 H2 HK. apply pad_key_inj_len; auto.
+  rewrite (fixed_bits_length std e n v1 b1 HF H1), (fixed_bits_length std e n v2 b2 HF H2). reflexivity.
+Qed.
+
+(* the UPER theorem without hypothesis for SET OF over fixed-width members, at any depth
+   of SEQUENCE OF / EXPLICIT tags above it *)
+Theorem uper_setof_fixed_width std tg s e n v1 v2 :
+  fixed_bits e = Some n -> same_abs (TSetOf tg s e) v1 v2 ->
+  uper_encode std (TSetOf tg s e) v1 = uper_encode std (TSetOf tg s e) v2.
+Proof.
+  intros HF Hs. apply uper_encode_same_abs; auto.
+  cbn. split; [eapply fixed_bits_key_injective; eauto|eapply fixed_bits_keys_ok; eauto].
+Qed.
+
+Example fixed_bits_example :
+  fixed_bits (TSeq 64 [TBool 4; TTag 10 (TInt 8 (ICon (Some 0) (Some 255) false))]) = Some 9%nat.
+Proof. vm_compute. reflexivity. Qed.
